@@ -276,11 +276,20 @@ func (p *OneofFields) lazyInit() *OneofFields {
 			p.byText = make(map[string]protoreflect.FieldDescriptor, len(p.List))
 			p.byNum = make(map[protoreflect.FieldNumber]protoreflect.FieldDescriptor, len(p.List))
 			for _, f := range p.List {
-				// Field names and numbers are guaranteed to be unique.
-				p.byName[f.Name()] = f
-				p.byJSON[f.JSONName()] = f
-				p.byText[f.TextName()] = f
-				p.byNum[f.Number()] = f
+				// Field names and numbers are guaranteed to be unique; JSON names
+				// are not. Like the generated lists, the first field wins.
+				if _, ok := p.byName[f.Name()]; !ok {
+					p.byName[f.Name()] = f
+				}
+				if _, ok := p.byJSON[f.JSONName()]; !ok {
+					p.byJSON[f.JSONName()] = f
+				}
+				if _, ok := p.byText[f.TextName()]; !ok {
+					p.byText[f.TextName()] = f
+				}
+				if _, ok := p.byNum[f.Number()]; !ok {
+					p.byNum[f.Number()] = f
+				}
 			}
 		}
 	})
